@@ -544,6 +544,10 @@ static ares_status_t read_answers(ares_conn_t *conn, const ares_timeval_t *now)
   ares_channel_t *channel = conn->server->channel;
   ares_array_t   *requeue = NULL;
 
+  /* Callbacks invoked while processing answers may get this connection closed,
+   * make sure the object stays valid until we're done with it */
+  conn->is_reading = ARES_TRUE;
+
   /* Process all queued answers */
   while (1) {
     unsigned short       dns_len  = 0;
@@ -580,6 +584,15 @@ static ares_status_t read_answers(ares_conn_t *conn, const ares_timeval_t *now)
 
     /* We finished reading this answer; process it */
     status = process_answer(channel, data, data_len, conn, now, &requeue);
+
+    /* Connection was closed by a callback, nothing left to read */
+    if (conn->is_closed) {
+      if (status != ARES_ENOMEM) {
+        status = ARES_SUCCESS;
+      }
+      goto cleanup;
+    }
+
     if (status != ARES_SUCCESS) {
       handle_conn_error(conn, ARES_TRUE, status);
       goto cleanup;
@@ -615,6 +628,12 @@ cleanup:
     }
   }
   ares_array_destroy(requeue);
+
+  conn->is_reading = ARES_FALSE;
+  if (conn->is_closed) {
+    ares_buf_destroy(conn->in_buf);
+    ares_free(conn);
+  }
 
   return status;
 }
